@@ -64,15 +64,15 @@ PROPS = {
         'explanation': 'Mixed: the cost model and the structure are proved; minimality is bounded-only (Verus has no float theory; SMAWK\'s guarantee needs total monotonicity).',
     },
     'C04': {
-        'units': ['U1', 'U2', 'U3', 'U4', 'U5', 'U6', 'U8', 'U10', 'U11', 'U12', 'U13', 'U14', 'U15'], 'level': 'other', 'kani': [K1, K1MIN],
+        'units': ['U1', 'U2', 'U3', 'U4', 'U5', 'U6', 'U8', 'U9', 'U10', 'U11', 'U12', 'U13', 'U14', 'U15'], 'level': 'other', 'kani': [K1, K1MIN],
         'trusted': ['A1', 'A2', 'A3', 'A4', 'A5', 'A6', 'A7', 'A8', 'A9', 'A10', 'A11', 'A12', 'R15'],
         'proved_part': 'Verus: absence of panics (index/slice bounds incl. char boundaries in NonEmptyLines, arithmetic overflow, unwrap on None, callee preconditions) and '
                        'termination for wrap_first_fit, wrap_optimal_fit (Err only from the is_infinite test), skip_ansi_escape_sequence, display_width (A8), NonEmptyLines::next, '
-                       'wrap_columns (A11), Word::from, break_words, indent, fill_inplace (index arithmetic), wrap, wrap_single_line, wrap_single_line_slow_path, fill_slow_path.',
+                       'wrap_columns (A11), Word::from, break_words, indent, dedent, fill_inplace (incl. from_utf8().unwrap()), wrap, wrap_single_line, wrap_single_line_slow_path (incl. char-boundary safety of its slices), fill_slow_path, find_words_ascii_space, split_words and Word::break_apart (closures, R16).',
         'bounded_part': 'BEC: every public function under catch_unwind with a hang watchdog over the adversarial alphabet, widths {0,1,2,7,usize::MAX}, all option combinations, '
-                        'extreme penalties; closure-based functions, dedent, unfill, refill only here.',
-        'explanation': 'Mixed: panic-freedom and termination are proof obligations of every Verus unit (listed functions, all inputs); the closure-based functions and '
-                       'dedent/unfill/refill are covered by bounded exhaustive execution only.',
+                        'extreme penalties; the Unicode word finder, unfill, refill and fill\'s fast path only here.',
+        'explanation': 'Mixed: panic-freedom and termination are proof obligations of every Verus unit (listed functions, all inputs); the Unicode word finder (external '
+                       'UAX #14 tables), unfill/refill and the thin public wrappers are covered by bounded exhaustive execution only.',
     },
     'C05': {
         'units': ['U3'], 'level': 'other', 'kani': [K1, K1MIN], 'trusted': ['A2', 'A3', 'A8', 'A12'],
@@ -172,9 +172,15 @@ PROPS = {
         'explanation': 'Mixed: the in-place edit is proved; agreement with wrap is relational and bounded.',
     },
     'C18': {
-        'units': [], 'level': 'exploration', 'trusted': [],
-        'bounded_part': 'BEC only (margin recomputed from the statement; idempotence; dedent . indent).',
-        'explanation': 'Bounded only: dedent is three loops over lines()/char_indices().zip() adapters; no Verus unit was built for it.',
+        'units': ['U9'], 'level': 'proof', 'trusted': ['A3', 'A4', 'A12'],
+        'proved_part': 'Verus, all inputs (U9): there is a margin length mlen such that, when some line has text, a string m of that length is the LONGEST string of '
+                       'whitespace characters that is a prefix of every line containing a non-whitespace character (is_margin: common, and no longer common one exists); the '
+                       'result is every line with text without its first mlen characters, every whitespace-only line empty, one output line per input line (each '
+                       'followed by a newline), the final newline removed exactly when the input does not end in one. `str::lines` and `char::is_whitespace` are abstract (A4).',
+        'bounded_part': 'BEC: the same against an independent implementation on every string in scope, plus the corollaries of the statement (idempotence; '
+                        'dedent(indent(s, p)) == dedent(s) for whitespace prefixes), which are relational and not mechanically derived from the postcondition.',
+        'explanation': 'Proof: the first two sentences of the statement are the postcondition of dedent, discharged by Verus on the extracted function (three loops, '
+                       'std iterators through assumed std contracts). The "therefore" corollaries are cross-checked by bounded exhaustive enumeration.',
     },
     'C19': {
         'units': ['U8'], 'level': 'proof', 'trusted': ['A3', 'A4', 'A12'],
